@@ -14,6 +14,14 @@ WANT_PROBES = ["on_grid", "in_band", "beyond_end", "equal_arrivals", "jumps"]
 
 
 def make(family, rng, tier):
+    if family == "aimD9a":
+        # re-confirms known finding D9a on every run of this check
+        k = rng.choice([419, 57, 1019, 113])
+        return {"kind": "trace", "tps": 100, "nticks": k + 5, "arrivals": ["%d.%02d" % (k // 100, k % 100)], "nops": [1], "jump": False}
+    if family == "aimD9b":
+        return {"kind": "roundtrip", "params": {"ticks_per_second": 100, "duration": 3.0, "waiting_seconds_mean": 0.02, "num_pipelines": 1,
+                                                "num_operators": 2, "num_segs": 1, "cpu_io_ratio": 0.5, "random_seed": rng.randint(0, 10 ** 6),
+                                                "interactive_prob": 0.3, "query_prob": 0.1, "batch_prob": 0.6}}
     if family == "trace":
         return tracecmp.gen_trace(rng, avoid_known=rng.random() < 0.95)
     if family == "grid":
@@ -29,7 +37,8 @@ def execute(scn, rng):
 
 def plan(tier):
     q = tier == "quick"
-    return [("trace", 6000 if q else 100000), ("grid", 96 if q else 480), ("roundtrip", 400 if q else 8000)]
+    return [("trace", 6000 if q else 100000), ("grid", 96 if q else 480), ("roundtrip", 400 if q else 8000),
+            ("aimD9a", 8), ("aimD9b", 8)]
 
 
 def sample(scn, out):
